@@ -13,15 +13,29 @@ def copy_sources(dst):
     subprocess.check_call(["rsync", "-a", "--exclude", "target", "--exclude", ".git", build.REPO + "/", dst + "/"])
 
 
-def run_one(patch, keep=False):
+def read_header(patch):
     hdr = {}
+    meta = os.path.join(os.path.dirname(patch), "meta.json")
+    if os.path.basename(patch) == "patch.diff" and os.path.exists(meta):
+        with open(meta) as fh:
+            m = json.load(fh)
+        return {"property": ",".join(m.get("checks", [m.get("property", "")])), "expect": m.get("expect", "")}
     with open(patch) as fh:
         for line in fh:
             if line.startswith("# ") and ":" in line:
                 k, v = line[2:].split(":", 1)
                 hdr[k.strip()] = v.strip()
+            elif line.startswith(("---", "diff ")):
+                break
+    return hdr
+
+
+def run_one(patch, keep=False, only_prop=None):
+    hdr = read_header(patch)
     prop, expect = hdr["property"], hdr["expect"]
-    name = os.path.basename(patch)[:-6]
+    if only_prop:
+        prop = only_prop
+    name = os.path.basename(patch)[:-6] if not patch.endswith("patch.diff") else "seeded/" + os.path.basename(os.path.dirname(patch))
     d = tempfile.mkdtemp(prefix="wf-mut-%s-" % name, dir=SCRATCH_ROOT)
     t0 = time.time()
     try:
@@ -61,9 +75,10 @@ def run_one(patch, keep=False):
 
 def main(argv):
     pats = [a for a in argv if not a.startswith("-")]
-    patches = sorted(glob.glob(os.path.join(VERIF, "selftest", "mutants", "*.patch")))
+    patches = sorted(glob.glob(os.path.join(VERIF, "selftest", "mutants", "*.patch")) +
+                     glob.glob(os.path.join(VERIF, "seeded", "*", "patch.diff")))
     if pats:
-        patches = [p for p in patches if any(x in os.path.basename(p) for x in pats)]
+        patches = [p for p in patches if any(x in p[len(VERIF):] for x in pats)]
     bad = 0
     with concurrent.futures.ThreadPoolExecutor(max_workers=int(os.environ.get("WF_JOBS", "4"))) as ex:
         for name, ok, msg, dt in ex.map(run_one, patches):
